@@ -520,6 +520,35 @@ func frameScenario(k int) *scenario {
 	return sc
 }
 
+// harnessMutex is a calibration of the scheduler itself, not of thriftrw: k
+// threads do a read-yield-write increment under one vsync.Mutex. Every schedule
+// must end with the counter at k; a harness whose mutex lets two waiters through
+// after one Unlock reports a lost update here instead of a false alarm elsewhere.
+func harnessMutex(k int) *scenario {
+	sc := &scenario{name: fmt.Sprintf("harness-mutex-%d", k), expect: []string{fmt.Sprint(k)}, labels: []string{"counter"}}
+	sc.body = func(results *[]string) func() {
+		return func() {
+			var m vsync.Mutex
+			var wg vsync.WaitGroup
+			n := 0
+			for i := 0; i < k; i++ {
+				wg.Add(1)
+				vsched.Go(func() {
+					defer wg.Done()
+					m.Lock()
+					v := n
+					vsched.Point("harness-yield")
+					n = v + 1
+					m.Unlock()
+				})
+			}
+			wg.Wait()
+			(*results)[0] = fmt.Sprint(n)
+		}
+	}
+	return sc
+}
+
 type fakeGen struct {
 	name  string
 	files map[string][]byte
@@ -646,7 +675,7 @@ func run(w *ev.W) {
 			}
 		}
 	}
-	scs = append(scs, frameScenario(2), fanoutScenario(2, false), fanoutScenario(2, true), fanoutScenario(3, false), fanoutScenario(3, true), fanoutSameName())
+	scs = append(scs, harnessMutex(3), frameScenario(2), fanoutScenario(2, false), fanoutScenario(2, true), fanoutScenario(3, false), fanoutScenario(3, true), fanoutSameName())
 	// every fan-out width 1..20 (and 33, 64), canonical schedule only: each generator's files are in the merge
 	for _, n := range []int{1, 4, 5, 6, 7, 8, 9, 10, 11, 12, 13, 14, 15, 16, 17, 18, 19, 20, 33, 64} {
 		sc := fanoutScenario(n, false)
